@@ -58,6 +58,38 @@ func crafted() []string {
 	}
 	mk(f12, f12t, fga.Req{Obj: "doc:1", Rel: "viewer", User: "user:x"})
 	mk(f12, f12t, fga.Req{Obj: "doc:1", Rel: "blocked", User: "user:x"})
+	// an error (depth limit) in an earlier dispatched branch must not hide a later `true`
+	deep := &fga.Model{Types: []*fga.TypeDef{{Name: "user"},
+		{Name: "group", Rels: []*fga.RelDef{{Name: "member", Rewrite: this(), Restrs: []fga.Restr{u, {Typ: "group", Rel: "member"}}}}},
+		{Name: "doc", Rels: []*fga.RelDef{{Name: "viewer", Rewrite: this(), Restrs: []fga.Restr{{Typ: "group", Rel: "member"}}}}}}}
+	deept := []fga.Tuple{
+		{Obj: "doc:1", Rel: "viewer", User: "group:a#member"}, {Obj: "doc:1", Rel: "viewer", User: "group:z#member"},
+		{Obj: "group:a", Rel: "member", User: "group:b#member"}, {Obj: "group:b", Rel: "member", User: "group:c#member"},
+		{Obj: "group:c", Rel: "member", User: "group:d#member"}, {Obj: "group:d", Rel: "member", User: "group:e#member"},
+		{Obj: "group:e", Rel: "member", User: "group:f#member"}, {Obj: "group:z", Rel: "member", User: "user:x"},
+	}
+	{
+		ts, err := typesystem.NewAndValidate(context.Background(), deep.Proto(fgarun.ModelID))
+		if err != nil {
+			panic(err)
+		}
+		rq := fga.Req{Obj: "doc:1", Rel: "viewer", User: "user:x"}
+		for _, d := range []int{3, 4, 5} {
+			out = append(out, fmt.Sprintf("cfg %d 1 %s %s %s %s %s", d, deep.Encode(), fga.EncodeAux(fga.Aux(deep, ts, rq.User)),
+				fga.EncodeTuples("tuples", deept), fga.EncodeTuples("ctx", nil), rq.Encode()))
+		}
+	}
+	// a tuple left over from an older model version: unconditioned userset tuple where the current model
+	// only allows that userset WITH a condition (and another, unconditioned userset of the same type)
+	stale := &fga.Model{Types: []*fga.TypeDef{{Name: "user"},
+		{Name: "group", Rels: []*fga.RelDef{{Name: "member", Rewrite: this(), Restrs: []fga.Restr{u}}, {Name: "admin", Rewrite: this(), Restrs: []fga.Restr{u}}}},
+		{Name: "doc", Rels: []*fga.RelDef{{Name: "viewer", Rewrite: this(), Restrs: []fga.Restr{{Typ: "group", Rel: "member", Cond: "c1"}, {Typ: "group", Rel: "admin"}}}}}},
+		Conds: []*fga.CondDef{{Name: "c1", Param: "x", Op: "lt", Const: 10}}}
+	stalet := []fga.Tuple{{Obj: "doc:1", Rel: "viewer", User: "group:g#member"}, {Obj: "group:g", Rel: "member", User: "user:x"},
+		{Obj: "doc:2", Rel: "viewer", User: "group:g#admin", Cond: "c1", Ctx: []fga.KV{{K: "x", V: 1}}}, {Obj: "group:g", Rel: "admin", User: "user:x"}}
+	mk(stale, stalet, fga.Req{Obj: "doc:1", Rel: "viewer", User: "user:x", Ctx: []fga.KV{{K: "x", V: 1}}})
+	mk(stale, stalet, fga.Req{Obj: "doc:1", Rel: "viewer", User: "group:g#member"})
+	mk(stale, stalet, fga.Req{Obj: "doc:2", Rel: "viewer", User: "user:x"})
 	return out
 }
 
